@@ -111,6 +111,7 @@ Inductive panic :=
   | PanicCellReading           (* "currently reading from cell" *)
   | PanicMutating              (* "atomic cell is in `with_mut` call" *)
   | PanicRwInvalid             (* "invalid internal loom state" *)
+  | PanicLazyShutdown          (* "attempted to access lazy_static during shutdown" *)
   | PanicModel (code : nat).   (* the model itself is stuck: never expected *)
 
 (* ---- access helpers (rt/access.rs) ---- *)
